@@ -51,3 +51,50 @@ func VerifC18InitBsc() {
 	}
 	rt.Assert("L3-bsc-pending-validators-from-the-header", ok)
 }
+
+// VerifC18UpgradeBsc: the real BSC UpgradeState on the client store it re-uses: a stale pending validator set, up to two
+// recorded signers of the old head and one stored consensus state. After a successful upgrade the store is what a fresh
+// Initialize would have produced for the new header: exactly one recorded signer (the sealer of the installed height) and
+// the header's own validator list as pending set - so that the next epoch switch installs the announced validators.
+func VerifC18UpgradeBsc() {
+	rt.Opt("structured-keys")
+	rt.Opt("exact-decimal")
+	rt.Override("github.com/teleport-network/teleport/x/xibc/clients/light-clients/bsc/types.sealHash", func(h Header, chainId *big.Int) common.Hash {
+		w := &c18Writer{}
+		encodeSigHeader(w, h, chainId)
+		return common.BytesToHash([]byte(rt.UFStr("sealHash", w.written[0])))
+	})
+	ctx := rt.EmptyCtx()
+	cdc := rt.Codec()
+	store := ctx.KVStore(rt.StoreKey("xibc"))
+	// what the previous client left behind
+	SetPendingValidators(store, cdc, [][]byte{rt.BytesN("stalePending", 20)})
+	nOld := rt.IntRange("staleSigners", 0, 2)
+	for i := 0; i < nOld; i++ {
+		h := rt.U64("staleSigner.height")
+		rt.Assume(h >= 1 && h <= 9) // bound: one-digit block numbers for the stale entries
+		SetSigner(store, Signer{Height: clienttypes.Height{RevisionHeight: h}, Validator: rt.BytesN("staleSigner", 20)})
+	}
+	nvals := rt.IntRange("validatorsInExtra", 1, 2)
+	hd := Header{ParentHash: rt.BytesN("parentHash", 32), UncleHash: rt.Bytes("uncleHash"), Coinbase: rt.BytesN("coinbase", 20), Root: rt.Bytes("root"),
+		TxHash: rt.Bytes("txHash"), ReceiptHash: rt.Bytes("receiptHash"), Bloom: rt.BytesN("bloom", 0), Difficulty: rt.Bytes("difficulty"),
+		Height: clienttypes.Height{RevisionNumber: 0, RevisionHeight: rt.U64("number")}, GasLimit: rt.U64("gasLimit"), GasUsed: rt.U64("gasUsed"), Time: rt.U64("time"),
+		Extra: rt.BytesN("extra", 32+20*nvals+65), MixDigest: rt.Bytes("mixDigest"), Nonce: rt.BytesN("nonce", 8)}
+	rt.Assume(hd.Height.RevisionHeight <= 9000)
+	cs := ClientState{Header: hd, ChainId: rt.U64("chainID"), Epoch: rt.U64("epoch"), BlockInteval: 3, TrustingPeriod: rt.U64("trustingPeriod")}
+	rt.Assume(cs.Validate() == nil)
+	cons := &ConsensusState{Timestamp: hd.Time, Height: hd.Height, Root: hd.Root}
+	if err := cs.UpgradeState(ctx, cdc, store, cons); err != nil {
+		return
+	}
+	rt.Reach("upgraded")
+	rt.Assert("L3-bsc-upgraded-at-an-epoch-block", hd.Height.RevisionHeight%cs.Epoch == 0)
+	signers, err := GetRecentSigners(store)
+	rt.Assert("L3-bsc-upgrade-records-only-the-new-sealer", err == nil && len(signers) == 1 && signers[0].Height == hd.Height && rt.BytesEq(signers[0].Validator, hd.Coinbase))
+	pend := GetPendingValidators(cdc, store)
+	ok := len(pend.Validators) == nvals
+	for i := 0; ok && i < nvals; i++ {
+		ok = rt.BytesEq(pend.Validators[i], hd.Extra[32+20*i:32+20*(i+1)])
+	}
+	rt.Assert("L3-bsc-upgrade-installs-the-header's-validator-list-as-pending", ok)
+}
